@@ -1,12 +1,20 @@
-// C19: compiles the hand-written (OPENTELEMETRY_HAVE_WORKING_REGEX == 0) variant of
-// InstrumentMetaDataValidator from the unchanged source file under another class name, so that the
-// harness can compare it with the regex variant that this build links into the SDK.
+// C19: compiles the code a build WITHOUT working std::regex (OPENTELEMETRY_HAVE_WORKING_REGEX == 0) uses,
+// from the unchanged sources, under other class names, so that the harness can hold it to the same reference
+// as the regex variant that this build links into the SDK:
+//  * the hand-written InstrumentMetaDataValidator (sdk/src/metrics/instrument_metadata_validator.cc),
+//  * view selection: view/predicate.h (PatternPredicate's #else branch) together with predicate_factory.h,
+//    instrument_selector.h, meter_selector.h and view_registry.h, which are header-only and instantiate it.
+// Every class whose definition depends on the macro (or uses one that does) is renamed, so that the two
+// variants are different types for the linker (no ODR merge with the SDK objects).
 #include <algorithm>
 #include <cctype>
 #include <string>
 
 #include <opentelemetry/common/macros.h>
 #include <opentelemetry/nostd/string_view.h>
+#include <opentelemetry/sdk/instrumentationscope/instrumentation_scope.h>
+#include <opentelemetry/sdk/metrics/instruments.h>
+#include <opentelemetry/sdk/metrics/view/view.h>
 #include <opentelemetry/version.h>
 
 #undef OPENTELEMETRY_HAVE_WORKING_REGEX
@@ -15,13 +23,48 @@
 #include "src/metrics/instrument_metadata_validator.cc"  // resolved through -I<repo>/sdk
 #undef InstrumentMetaDataValidator
 
+#define Predicate PredicateNoRegex
+#define PatternPredicate PatternPredicateNoRegex
+#define ExactPredicate ExactPredicateNoRegex
+#define MatchEverythingPattern MatchEverythingPatternNoRegex
+#define MatchNothingPattern MatchNothingPatternNoRegex
+#define PredicateFactory PredicateFactoryNoRegex
+#define InstrumentSelector InstrumentSelectorNoRegex
+#define MeterSelector MeterSelectorNoRegex
+#define RegisteredView RegisteredViewNoRegex
+#define ViewRegistry ViewRegistryNoRegex
+#include <opentelemetry/sdk/metrics/view/view_registry.h>
+#undef Predicate
+#undef PatternPredicate
+#undef ExactPredicate
+#undef MatchEverythingPattern
+#undef MatchNothingPattern
+#undef PredicateFactory
+#undef InstrumentSelector
+#undef MeterSelector
+#undef RegisteredView
+#undef ViewRegistry
+
 namespace c19 {
+namespace sm = opentelemetry::sdk::metrics;
 bool noregex_name(opentelemetry::nostd::string_view v) {
-  static const opentelemetry::sdk::metrics::InstrumentMetaDataValidatorNoRegex val;
+  static const sm::InstrumentMetaDataValidatorNoRegex val;
   return val.ValidateName(v);
 }
 bool noregex_unit(opentelemetry::nostd::string_view v) {
-  static const opentelemetry::sdk::metrics::InstrumentMetaDataValidatorNoRegex val;
+  static const sm::InstrumentMetaDataValidatorNoRegex val;
   return val.ValidateUnit(v);
+}
+// One view {Counter, name selector, unit selector, any meter} registered on a fresh registry: is it handed out
+// for the instrument (type, name, unit) of meter ("m","1","")?
+bool noregex_view_applies(int instrument_type, const std::string &name_sel, const std::string &unit_sel, const std::string &name, const std::string &unit) {
+  sm::ViewRegistryNoRegex reg;
+  reg.AddView(std::unique_ptr<sm::InstrumentSelectorNoRegex>(new sm::InstrumentSelectorNoRegex(sm::InstrumentType::kCounter, name_sel, unit_sel)),
+              std::unique_ptr<sm::MeterSelectorNoRegex>(new sm::MeterSelectorNoRegex("", "", "")), std::unique_ptr<sm::View>(new sm::View("picked")));
+  sm::InstrumentDescriptor d = {name, "d", unit, (sm::InstrumentType)instrument_type, sm::InstrumentValueType::kLong};
+  auto scope = opentelemetry::sdk::instrumentationscope::InstrumentationScope::Create("m", "1", "");
+  bool applied = false;
+  reg.FindViews(d, *scope, [&](const sm::View &v) { applied |= v.GetName() == "picked"; return true; });
+  return applied;
 }
 }  // namespace c19
